@@ -1,10 +1,14 @@
 /-
 C05 — every input gets an answer.
 (a) The tokenizer is total — proved here for every string over every alphabet.
-(b) The pipeline half (rule engine) is in `Properties/C05` part (b) once the engine model
-    is in place; see DESIGN §4.5.
+(b) The pipeline half: the engine loop terminates and raises nothing by itself for every rule
+    table (C07.terminates / crash_is_rule_crash, re-stated here); of the rules, the four that are
+    ported completely are total functions, and the one with a loop — CheckSpacing — is shown to
+    leave its loop by its own condition. Totality of the other rules is searched, see DESIGN §4.5.
 -/
 import NormModel.Proofs.LexTotal
+import NormModel.Proofs.Spacing
+import NormModel.Proofs.Engine
 namespace Norm.C05
 open Norm
 
@@ -12,6 +16,18 @@ open Norm
 model returns tokens and lexical diagnostics; it never raises (no `KeyError` from the
 operator table, no exhaustion of its `|src|+1` fuel — every round consumes input). -/
 theorem lex_total (u : Uni) (src : List Char) : ∃ r, lex u src = .ok r := Norm.lex_total u src
+
+/-- **(b) The loop of `Registry.run` terminates** for every rule table whose rule calls return. -/
+theorem engine_terminates {σ : Type} (step : σ → Nat → StepRes σ) (debug : Nat) (s : σ) (n : Nat)
+    (hstep : ∀ s p, ∀ (_ : step s p = .hang), False) : engineRun step debug s n ≠ .hang := by
+  unfold engineRun
+  exact engineLoop_no_hang step debug hstep _ _ _ _ _ _ _ (by omega)
+
+/-- **(b) `CheckSpacing` terminates on every token list**: its `while` loop leaves by its own
+condition (the index passes the end of the statement), never by exhausting the model's fuel. -/
+theorem checkSpacing_terminates (ts : List Token) (n : Nat) :
+    min n ts.length ≤ (spacingLoop ts n (ts.length + 1) {}).i :=
+  spacingLoop_terminates ts n (ts.length + 1) {} (by simp; omega)
 
 /-- Every operator spelling that `parse_operator` can look up is a key of the operator
 table regenerated from the source (so `operators[...]` cannot raise). -/
